@@ -1,15 +1,17 @@
 """Which matcher functions a call consults (and when diagnostics are collected): a correspondence part for run_coexec-style checks.
 The walkers' matcher functions log every invocation (pattern id, MismatchReporter::enabled()); the event `callm` prints that log next
 to the call's outcome; the model side is Model/Run.v [matcher_trace] (theorems Proofs/Trace.v)."""
+import re
 from . import common as C
 from . import cases as K
 from .layer_a import Engine, proj_outcome_kind, proj_verdict_kind
 
 
 def split(o):
-    if " M[" in o and o.endswith("]"):
-        r, t = o.rsplit(" M[", 1)
-        return r, t[:-1]
+    """outcome, matcher trace (plus, for the method with the counting argument type, the number of runs of the argument's Debug impl)"""
+    m = re.match(r"^(.*) M\[([^\]]*)\]( D\d+)?$", o, re.S)
+    if m:
+        return m.group(1), m.group(2) + (m.group(3) or "")
     return o, None
 
 
@@ -31,7 +33,9 @@ def project(case, obs):
 
 
 def gen_case(rng):
-    mids = rng.sample([0, 1, 2, 3, 4], rng.randint(1, 2))
+    # 40: DB::db(a: A8) - the argument's Debug impl is user code that counts its runs: it must run exactly when the call ends in an error
+    # whose message renders the call
+    mids = rng.sample([0, 1, 2, 3, 4, 40, 40], rng.randint(1, 2))
     ordered = rng.random() < 0.25
     g = K.Gen(rng, mids=mids, n_terms=(2, 6), n_events=(3, 9), ordered_frac=1.0 if ordered else 0.0, clone_frac=0.1,
               final="verify", partial_frac=0.5, nomatcher_frac=0.04, max_count=2, full_mask_frac=0.25, stub_frac=0.25,
@@ -46,7 +50,7 @@ def gen_case(rng):
             if p["matcher"] is not None and rng.random() < 0.05:
                 p["matcher"] |= (1 << 16)
     for e in c["events"]:
-        if e["base"][0] == "call" and e["base"][2] < 8:
+        if e["base"][0] == "call" and (e["base"][2] < 8 or e["base"][2] == 40):
             e["base"] = ("callm",) + tuple(e["base"][1:])
             e.pop("unwinding", None)
     return c
@@ -64,10 +68,12 @@ class TracePart:
         eng.build()
         tc = [gen_case(rng) for _ in range(self.n[tier])]
         bad, impl, model = eng.disagreements(tc)
-        lens = [len((split(o)[1] or "").split(",")) if split(o)[1] else 0 for obs in model for o in obs if " M[" in o]
+        lens = [len((split(o)[1] or "").split(" D")[0].split(",")) if split(o)[1] else 0 for obs in model for o in obs if " M[" in o]
         cov = {"matcher_trace_part": {"evaluations": len(tc), "observed_calls": len(lens),
                                       "calls_consulting_2_or_more_matchers": sum(1 for n in lens if n >= 2),
                                       "calls_with_diagnostics_rerun": sum(1 for obs in model for o in obs if " M[" in o and "d" in o.rsplit(" M[", 1)[1]),
+                                      "calls_observing_the_argument_debug_impl": sum(1 for obs in model for o in obs if re.search(r" D\d+$", o)),
+                                      "of_them_with_one_run": sum(1 for obs in model for o in obs if o.endswith(" D1")),
                                       "rule": TracePart.__doc__}}
         if not bad:
             return len(tc), None, cov
